@@ -375,6 +375,18 @@ def make_raising(spec):
     return pred
 
 
+def died_cause(thread_errors):
+    """what killed the provider thread, as part of a failure signature: 'Evt11-Sta8' for an undefined (event, state) pair,
+    else the exception type - so that a provider dying for a NEW reason is not mistaken for a recorded race"""
+    import re
+
+    for name, msg in thread_errors:
+        if name == "DULServiceProvider":
+            m = re.search(r"Invalid event 'Evt(\d+)' for the current state 'Sta(\d+)'", msg)
+            return f"Evt{m.group(1)}-Sta{m.group(2)}" if m else msg.split(":")[0]
+    return None
+
+
 def load_factor():
     """How much longer than on an idle machine things may take right now: 1 on an idle machine, up to 6.
     Timeouts of scenarios are multiplied by it, so that a check run next to other work (other checks, a test
